@@ -173,7 +173,8 @@ def ob_fpbase(cfg, N, op, alias, deep=False):
     I = eir.Interp(prog)
     if not deep:
         install_bigint_specs(I, N)
-    I.solver.set("timeout", 120000)
+    # deep: the BigInt helpers are executed from the IR as well (no specification in between); a few minutes per query on a loaded machine
+    I.solver.set("timeout", 1200000 if deep else 120000)
     I.noalias_fatal = False     # negate(out == a) hands a.val to BigInt::subtract's __restrict parameter: recorded, see DESIGN.md S12
     W = N + 8
     a = z3.BitVec("a", N)
